@@ -1,6 +1,7 @@
 package rules
 
 import (
+	"runtime/debug"
 	"fmt"
 	"os"
 	"strings"
@@ -234,6 +235,9 @@ func parallelDo(n int, f func(k int)) {
 				// a panic in a worker is re-raised in the caller, where the rule
 				// runner turns it into "undecided"
 				if r := recover(); r != nil {
+					if os.Getenv("GSA_DBG") != "" {
+						fmt.Fprintf(os.Stderr, "worker panic: %v\n%s\n", r, debug.Stack())
+					}
 					mu.Lock()
 					failed = r
 					mu.Unlock()
@@ -246,4 +250,245 @@ func parallelDo(n int, f func(k int)) {
 	if failed != nil {
 		panic(failed)
 	}
+}
+
+// c03NamesExact decides the name-level validators exactly on short names: every
+// ASCII name of 0..9 bytes without an ACE prefix (on these idna.ToASCII is the
+// identity; that is the assumption under which the evaluation runs, expressed
+// as a condition on the bytes).  The label validators they call are evaluated
+// too, so the verdict is a Boolean function of the name's bytes, compared with
+// the grammar:
+//
+//	domain name: non-empty; every label but the last 1..63 bytes; the last a TLD label
+//	hostname:    every label but the last a hostname label; the last a TLD label
+//	SRV name:    every label but the last a service label (when it starts with '_')
+//	             or a hostname label; the last a TLD label
+//
+// (a TLD label is a hostname label with a byte that is not a digit).  This
+// decides how the names are cut into labels and which validator each label
+// gets, whatever the loop looks like; the 253-byte window stays with E1.
+func c03NamesExact(c *Ctx, prop string) map[string]bool {
+	rule := prop + ".name-exact"
+	type spec struct {
+		fn      string
+		boolean bool
+		kind    string
+	}
+	specs := []spec{{"ValidateDomainName", false, "domain"}, {"ValidateHostname", false, "host"}, {"ValidateSRVDomainName", false, "srv"}, {"IsValidHostname", true, "host"}}
+	lengths := []int{0, 1, 2, 3, 4, 5, 6, 7, 8, 9}
+	if c.Tier == "thorough" {
+		lengths = append(lengths, 10, 11, 12)
+	}
+	if prop == "C02" {
+		// only the twin pair is of interest there
+		specs = []spec{specs[1], specs[3]}
+	}
+	type job struct {
+		sp  int
+		L   int
+		bad string
+		err error
+	}
+	var jobs []*job
+	fns := make([]*ssa.Function, len(specs))
+	for si, sp := range specs {
+		f := c.fn("netutil", sp.fn)
+		if f == nil || len(f.Params) != 1 {
+			continue
+		}
+		fns[si] = f
+		for _, L := range lengths {
+			jobs = append(jobs, &job{sp: si, L: L})
+		}
+	}
+	parallelDo(len(jobs), func(k int) {
+		jb := jobs[k]
+		sp, f, L := specs[jb.sp], fns[jb.sp], jb.L
+		m := boolfn.New()
+		ev := &boolfn.Eval{M: m, Entered: map[string]bool{}, ErrorsAsBits: true, ForcePath: true, Steps: 3000000}
+		ev.InScope = core.InModule
+		in := ev.StringInput(0, L)
+		for i := range in.Elems {
+			in.Elems[i][7] = 0 // ASCII
+		}
+		is := func(i int, v byte) int {
+			eq := 1
+			for b := 0; b < 8; b++ {
+				bit := in.Elems[i][b]
+				if (v>>uint(b))&1 == 0 {
+					bit = m.Not(bit)
+				}
+				eq = m.And(eq, bit)
+			}
+			return eq
+		}
+		// no "xn--" (in any letter case) anywhere: ToASCII leaves the name alone
+		plain := 1
+		for i := 0; i+4 <= L; i++ {
+			ace := m.And(m.And(m.Or(is(i, 'x'), is(i, 'X')), m.Or(is(i+1, 'n'), is(i+1, 'N'))), m.And(is(i+2, '-'), is(i+3, '-')))
+			plain = m.And(plain, m.Not(ace))
+		}
+		ev.Assume = plain
+		ev.Override = func(name string, call *ssa.CallCommon, args []boolfn.Val) (boolfn.Val, bool) {
+			switch {
+			case strings.HasSuffix(name, "/netutil.replaceKind"):
+				return boolfn.Opaque("void"), true
+			case strings.HasSuffix(name, "/errors.Unwrap") || name == "errors.Unwrap":
+				if len(args) == 1 && args[0].Kind == boolfn.KBits {
+					return args[0], true
+				}
+			case name == "golang.org/x/net/idna.ToASCII":
+				return boolfn.Val{Kind: boolfn.KTuple, Tuple: []boolfn.Val{args[0], boolfn.BoolVal(0)}}, true
+			}
+			return boolfn.Val{}, false
+		}
+		ev.OnCall = func(name string, call *ssa.CallCommon, args []boolfn.Val) (boolfn.Val, bool) {
+			if res := call.Signature().Results(); res.Len() == 1 && res.At(0).Type().String() == "error" {
+				return boolfn.BoolVal(1), true
+			}
+			return boolfn.Val{}, false
+		}
+		rs, err := ev.Call(f, []boolfn.Val{in})
+		if err != nil || len(rs) != 1 || rs[0].Kind != boolfn.KBits || len(rs[0].Bits) != 1 {
+			if err == nil {
+				err = fmt.Errorf("unexpected result shape")
+			}
+			jb.err = err
+			return
+		}
+		got := rs[0].Bits[0]
+		if !sp.boolean {
+			got = m.Not(got)
+		}
+		got = m.And(got, plain)
+		want := 0
+		if gerr := boolfn.Guard(func() {
+			cls := func(i int, pred func(v int) bool) int {
+				r := 0
+				for v := 0; v < 128; v++ {
+					if pred(v) {
+						r = m.Or(r, is(i, byte(v)))
+					}
+				}
+				return r
+			}
+			alnum := func(v int) bool { return v >= '0' && v <= '9' || v >= 'a' && v <= 'z' || v >= 'A' && v <= 'Z' }
+			host := func(lo, hi int) int { // [lo,hi) is a hostname label
+				if hi-lo < 1 {
+					return 0
+				}
+				r := m.And(cls(lo, alnum), cls(hi-1, alnum))
+				for i := lo + 1; i < hi-1; i++ {
+					r = m.And(r, cls(i, func(v int) bool { return alnum(v) || v == '-' }))
+				}
+				return r
+			}
+			noDot := func(lo, hi int) int {
+				r := 1
+				for i := lo; i < hi; i++ {
+					r = m.And(r, m.Not(is(i, '.')))
+				}
+				return r
+			}
+			tld := func(lo, hi int) int {
+				nd := 0
+				for i := lo; i < hi; i++ {
+					nd = m.Or(nd, m.Not(cls(i, func(v int) bool { return v >= '0' && v <= '9' })))
+				}
+				return m.And(host(lo, hi), nd)
+			}
+			inner := func(lo, hi int) int { // a label that is not the last one
+				switch sp.kind {
+				case "domain":
+					if hi-lo >= 1 {
+						return noDot(lo, hi)
+					}
+					return 0
+				case "host":
+					return host(lo, hi)
+				}
+				// srv
+				if hi-lo < 1 {
+					return 0
+				}
+				under := is(lo, '_')
+				svc := 0
+				if hi-lo >= 2 && hi-lo <= 16 {
+					svc = host(lo+1, hi)
+				}
+				return m.Or(m.And(under, svc), m.And(m.Not(under), host(lo, hi)))
+			}
+			// ok[p]: the labels in front of position p (each closed by a dot at
+			// its end) are fine; p is a label start
+			ok := make([]int, L+1)
+			ok[0] = 1
+			for p := 0; p <= L; p++ {
+				if ok[p] == 0 {
+					continue
+				}
+				// the last label [p, L): no dot inside (host/tld classes exclude dots)
+				if L > 0 {
+					want = m.Or(want, m.And(ok[p], m.And(noDot(p, L), tld(p, L))))
+				}
+				// a label [p, q) followed by a dot at q
+				for q := p; q < L; q++ {
+					lab := m.And(noDot(p, q), m.And(is(q, '.'), inner(p, q)))
+					if lab != 0 {
+						ok[q+1] = m.Or(ok[q+1], m.And(ok[p], lab))
+					}
+				}
+			}
+			want = m.And(want, plain)
+		}); gerr != nil {
+			jb.err = gerr
+			return
+		}
+		if got != want {
+			d := m.Xor(got, want)
+			kind := "rejected though the grammar accepts it"
+			if x := m.And(got, m.Not(want)); x != 0 {
+				d, kind = x, "accepted though the grammar rejects it"
+			}
+			jb.bad = sprintf("the name %s is %s", witnessName(m.Witness(d), L, L), kind)
+		}
+	})
+	decided := map[string]bool{}
+	n := 0
+	for si, sp := range specs {
+		f := fns[si]
+		if f == nil {
+			continue
+		}
+		bad, unsup := "", false
+		for _, jb := range jobs {
+			if jb.sp != si {
+				continue
+			}
+			if jb.err != nil && !unsup {
+				unsup = true
+				if os.Getenv("GSA_DBG") != "" {
+					fmt.Fprintln(os.Stderr, "exact name validator:", sp.fn, "L =", jb.L, jb.err)
+				}
+				c.L.Notef("%s is outside the exact evaluator's grammar at length %d (%v)", sp.fn, jb.L, jb.err)
+			}
+			if jb.bad != "" && bad == "" {
+				bad = jb.bad
+			}
+		}
+		if unsup {
+			continue
+		}
+		decided[sp.fn] = true
+		n++
+		what := sp.fn + " cuts the name into labels and validates each as its grammar says"
+		if bad != "" {
+			c.check(false, rule, f, what, nil, bad)
+		} else {
+			c.check(true, rule, f, what, nil, sprintf("equal as Boolean functions for every ASCII name of %v bytes without an ACE prefix", lengths))
+		}
+	}
+	if n > 0 {
+		c.L.Floor(rule, n)
+	}
+	return decided
 }
